@@ -12,7 +12,7 @@ use serde_json::json;
 pub static SPEC: PropSpec = PropSpec {
     id: "C08",
     level: "exploration",
-    rule: "tests: closure body shape (13: arithmetic, if, int / string / tuple / enum matches with the captured variable in one arm only - including only the default arm -, capture through an inner closure only, shadowing inside the body, loops, Ref reads and updates, calling a captured function value, struct field of a captured struct) x capture kind (8: parameter, shadowed let, tuple-pattern variable, match-arm variable, outer closure parameter, value read from a Ref, the Ref cell itself, top-level function value) x flow (6: direct call, returned from a function, two closures sharing a Ref returned in a tuple, captured by another closure, created and called in a loop, nested three deep); exhaustive over the product, packed 24 tests per program; plus random closure-heavy programs. non-trivial: all tests; distinct by (shape, capture, flow)",
+    rule: "tests: closure body shape (14: a captured dyn value used only as dyn-call receiver, arithmetic, if, int / string / tuple / enum matches with the captured variable in one arm only - including only the default arm -, capture through an inner closure only, shadowing inside the body, loops, Ref reads and updates, calling a captured function value, struct field of a captured struct) x capture kind (8: parameter, shadowed let, tuple-pattern variable, match-arm variable, outer closure parameter, value read from a Ref, the Ref cell itself, top-level function value) x flow (6: direct call, returned from a function - directly, in a flat tuple, nested in tuples on the left / right -, two closures sharing a Ref returned in a tuple, captured by another closure, created and called in a loop, nested three deep); exhaustive over the product, packed 24 tests per program; plus random closure-heavy programs. non-trivial: all tests; distinct by (shape, capture, flow)",
     eval_counter: "tests",
     assumptions: &["closure values flowing into function-typed parameters / struct fields / heterogeneous branches are outside the clean lattice (recorded C02 finding); relative to refsem and gomini"],
     crash_is_violation: false,
@@ -58,7 +58,7 @@ fn add(a: Expr, b: Expr) -> Expr {
     bin(BinOp::Add, a, b)
 }
 
-pub const N_SHAPES: usize = 13;
+pub const N_SHAPES: usize = 14;
 pub const N_CAPS: usize = 8;
 pub const N_FLOWS: usize = 6;
 
@@ -109,6 +109,8 @@ fn body(shape: usize, c1: Expr, c2: Expr) -> Expr {
             Box::new(blk(vec![], bin(BinOp::Sub, c1, p()))),
             Box::new(blk(vec![], bin(BinOp::Mul, c2, i(2)))),
         ),
+        // a captured dyn value used only as the receiver of a dyn call (bound by the test function, see `test`)
+        13 => add(Expr::AssocCall { head: "Dv".into(), method: "val".into(), args: vec![var("dcap"), p()] }, c2),
         // unit-typed statement uses c1, value uses c2
         _ => blk(vec![Stmt::Let(Pat::Var("unused".into()), None, add(c1, i(1)))], add(c2, p())),
     }
@@ -148,6 +150,13 @@ fn test(k: usize, shape: usize, cap: usize, flow: usize) -> Vec<FnDecl> {
     };
     if cap == 7 {
         pre.push(let_("fv", Expr::FnRef("dblr".into())));
+    }
+    // shape 13 needs a dyn value in the enclosing scope; where c1 is only bound around the use (capture kinds 3, 4)
+    // the shape falls back to shape 0
+    let shape = if shape == 13 && (cap == 3 || cap == 4) { 0 } else { shape };
+    if shape == 13 {
+        pre.push(let_("dsrc", Expr::StructLit { name: "Dw".into(), ty: Ty::Struct("Dw".into(), vec![]), fields: vec![("w".into(), c1.clone())] }));
+        pre.push(Stmt::Let(Pat::Var("dcap".into()), Some(Ty::Dyn("Dv".into())), Expr::ToDyn("Dv".into(), Box::new(var("dsrc")))));
     }
     let the_closure = clo(&[("p", I32)], body(shape, c1, c2));
     let name = format!("t{}", k);
@@ -210,8 +219,34 @@ fn test(k: usize, shape: usize, cap: usize, flow: usize) -> Vec<FnDecl> {
     let body_e = Expr::Block(stmts, Some(Box::new(show(var("res")))));
     if flow == 1 && cap == 0 {
         // mk<k>(a, b) returns the closure directly; the test function calls it
-        fns.push(FnDecl { name: format!("mk{}", k), tparams: vec![], params: vec![("a".into(), I32), ("b".into(), I32)], ret: Ty::Func(vec![I32], Box::new(I32)), body: Expr::Block(vec![], Some(Box::new(the_closure))) });
-        let b2 = blk(vec![let_("f", Expr::Call { name: format!("mk{}", k), targs: vec![], args: vec![var("a"), var("b")] }), let_("res", add(callv(var("f"), vec![i(2)]), callv(var("f"), vec![i(0)])))], show(var("res")));
+        // how the helper hands the closure out: directly, in a flat tuple, or nested in tuples (left / right)
+        let fty = Ty::Func(vec![I32], Box::new(I32));
+        let second = clo(&[("q", I32)], add(var("q"), var("b")));
+        let call_mk = Expr::Call { name: format!("mk{}", k), targs: vec![], args: vec![var("a"), var("b")] };
+        let pv = |n: &str| Pat::Var(n.into());
+        let (ret, result, bind, use_e): (Ty, Expr, Stmt, Expr) = match shape % 4 {
+            0 => (fty.clone(), the_closure, let_("f", call_mk), add(callv(var("f"), vec![i(2)]), callv(var("f"), vec![i(0)]))),
+            1 => (
+                Ty::Tuple(vec![fty.clone(), I32]),
+                Expr::Tuple(vec![the_closure, add(var("a"), i(1))]),
+                Stmt::Let(Pat::Tuple(vec![pv("f"), pv("n")]), None, call_mk),
+                add(add(callv(var("f"), vec![i(2)]), callv(var("f"), vec![i(0)])), var("n")),
+            ),
+            2 => (
+                Ty::Tuple(vec![Ty::Tuple(vec![fty.clone(), fty.clone()]), I32]),
+                Expr::Tuple(vec![Expr::Tuple(vec![the_closure, second]), add(var("a"), i(1))]),
+                Stmt::Let(Pat::Tuple(vec![Pat::Tuple(vec![pv("f"), pv("g")]), pv("n")]), None, call_mk),
+                add(add(callv(var("f"), vec![i(2)]), callv(var("g"), vec![i(5)])), var("n")),
+            ),
+            _ => (
+                Ty::Tuple(vec![I32, Ty::Tuple(vec![fty.clone(), Ty::Tuple(vec![fty.clone(), I32])])]),
+                Expr::Tuple(vec![add(var("a"), i(1)), Expr::Tuple(vec![second, Expr::Tuple(vec![the_closure, i(9)])])]),
+                Stmt::Let(Pat::Tuple(vec![pv("n"), Pat::Tuple(vec![pv("g"), Pat::Tuple(vec![pv("f"), pv("m")])])]), None, call_mk),
+                add(add(add(callv(var("f"), vec![i(2)]), callv(var("g"), vec![i(5)])), var("n")), var("m")),
+            ),
+        };
+        fns.push(FnDecl { name: format!("mk{}", k), tparams: vec![], params: vec![("a".into(), I32), ("b".into(), I32)], ret, body: Expr::Block(vec![], Some(Box::new(result))) });
+        let b2 = blk(vec![bind, let_("res", use_e)], show(var("res")));
         fns.push(FnDecl { name, tparams: vec![], params: vec![("a".into(), I32), ("b".into(), I32)], ret: Ty::Unit, body: b2 });
     } else {
         fns.push(FnDecl { name, tparams: vec![], params: vec![("a".into(), I32), ("b".into(), I32)], ret: Ty::Unit, body: body_e });
@@ -222,6 +257,14 @@ fn test(k: usize, shape: usize, cap: usize, flow: usize) -> Vec<FnDecl> {
 fn program(tests: &[(usize, usize, usize)]) -> Program {
     let mut prog = Program::default();
     prog.items.push(Item::Enum(EnumDecl { name: "Ev".into(), tparams: vec![], variants: vec![("V0".into(), vec![]), ("V2".into(), vec![I32, I32])], derives: vec![] }));
+    prog.items.push(Item::Trait(TraitDecl { name: "Dv".into(), methods: vec![MethodSig { name: "val".into(), extra: vec![I32], ret: I32 }] }));
+    prog.items.push(Item::Struct(StructDecl { name: "Dw".into(), tparams: vec![], fields: vec![("w".into(), I32)], derives: vec![] }));
+    prog.items.push(Item::Impl(ImplDecl {
+        trait_name: Some("Dv".into()),
+        for_ty: Ty::Struct("Dw".into(), vec![]),
+        tparams: vec![],
+        methods: vec![FnDecl { name: "val".into(), tparams: vec![], params: vec![("self".into(), Ty::Struct("Dw".into(), vec![])), ("k".into(), I32)], ret: I32, body: blk(vec![], add(bin(BinOp::Mul, Expr::Field(Box::new(var("self")), "w".into()), i(3)), var("k"))) }],
+    }));
     prog.items.push(Item::Fn(FnDecl { name: "incr".into(), tparams: vec![], params: vec![("v".into(), I32)], ret: I32, body: blk(vec![], add(var("v"), i(1))) }));
     prog.items.push(Item::Fn(FnDecl { name: "dblr".into(), tparams: vec![], params: vec![("v".into(), I32)], ret: I32, body: blk(vec![], bin(BinOp::Mul, var("v"), i(2))) }));
     let mut stmts = Vec::new();
@@ -273,7 +316,7 @@ fn run(ctx: &mut Ctx) {
                     }
                 }
                 Outcome::Rejected(st, msg) => c.violation(format!("C08:closure-program-rejected:{}", diff::msg_class(&msg)), format!("a well-typed closure program is rejected ({}): {}", st, util::truncate(&msg, 200)), json!({"label": label, "source": print_program(&prog, PrintOpts::default())})),
-                Outcome::Inconclusive(r) => c.inconclusive(diff::msg_class(&r)),
+                Outcome::Inconclusive(r) => diff::inconclusive_unless_crash(c, "C08", &r, &label, &print_program(&prog, PrintOpts::default())),
                 Outcome::Violation => {}
             }
             if bi_ < 2 {
